@@ -23,5 +23,20 @@ CHECKS = {
     ),
 }
 
-NOT_APPLICABLE = {p: PENDING for p in ['C01', 'C02', 'C03', 'C04', 'C05', 'C06', 'C07', 'C08', 'C09', 'C11', 'C12',
+CHECKS['C11'] = dict(
+    engine='E2 tables + E4',
+    level='proof',
+    ref='DESIGN.md 4 (C11), 3.3',
+    technique='deductive, per grammar production: the real p_* action and the real Node.setpos/findpos/set_comments are executed on tagged slots for every child shape their contracts admit; structural induction over derivations',
+    text=('For every one of the 340 productions of the real grammar (extracted by ply reflection) two obligations are decided: '
+          'every node the action builds takes the position triple of one slot, that slot is the node\'s first token (or the '
+          'operator terminal of an infix/postfix form, or "previous terminal + 1" for an omitted for(;;) clause), and every '
+          'token-map entry is the position of the slot holding exactly that text, in order. By induction over the derivation '
+          '(a child\'s position is its own first token) this covers all programs; offsets are turned into line/column by the '
+          'lexer contract of C06. A bounded whole-pipeline run against the source text stands beside it and is not counted.'),
+    note=('Trusted: ply.yacc position-tracking contract (read off yacc.py); Lexer.lookup_colno contract (C06); actions branch on '
+          'children only through kind/None/list-ness (shapes = least fixpoint of the real actions). Known finding F19 (empty program).'),
+)
+
+NOT_APPLICABLE = {p: PENDING for p in ['C01', 'C02', 'C03', 'C04', 'C05', 'C06', 'C07', 'C08', 'C09', 'C12',
                                         'C13', 'C14', 'C15', 'C16', 'C17', 'C18', 'C19', 'C20']}
